@@ -19,8 +19,8 @@ META = dict(
              'interval arithmetic'],
     modelled=['Optimizer.chisq_trans / update_model, the loglike and prior closures of NestleOptimizer, '
               'MultiNestOptimizer and PolyChordOptimizer.compute_fit; the samplers themselves are out of scope'],
-    assumptions=['chi^2 = 0 exactly is mapped to NaN by the code (DESIGN note N2): generated observations never '
-                 'coincide exactly with the model',
+    assumptions=['a binned model without a single finite entry counts as invalid (NaN likelihood), as the code treats it; '
+                 'observations generated from the model itself (chi^2 = 0 at the generating values) are part of the run',
                  'tolerance 1e-9 relative on the log-likelihood'],
 )
 
@@ -291,18 +291,60 @@ def run(ctx):
                     ctx.validated()
             except Exception as e:
                 ctx.violation('setup-raises:' + kind, 'fresh optimizer raised %r' % (e,), replay=rp)
+    exact_fit(ctx, rng)
     for mt, r in zip(metas, C.run_cases('C06', HEADER, exprs, shard=60)):
         ctx.case(mt['key'], nontrivial=mt['ndim'] >= 2,
                  sample=dict(sampler=mt['kind'], parameters=mt['vals'], loglike=mt['L']))
-        chi = C.iv_mid(r[1])
-        if chi == 0:
-            continue
         if C.in_enclosure(mt['L'], r[0], rel=1e-9, abs_=1e-9):
             ctx.validated()
         else:
             ctx.violation('correspondence:loglike:' + mt['kind'], 'log-likelihood at %r: callback %r, Gaussian formula '
                           'on the independently binned model %r' % (mt['vals'], mt['L'], C.iv_mid(r[0])),
                           replay=mt['rp'])
+
+
+def exact_fit(ctx, rng):
+    """an observation generated from the model itself (what `taurex_spectrum = self` with a noise-free instrument
+    produces): at the generating parameter values chi^2 = 0 and the log-likelihood is its maximum
+    -sum(log(sigma sqrt(2 pi))), a finite number"""
+    from taurex.data.spectrum.array import ArraySpectrum
+    for i in range(ctx.n(9, 60)):
+        kind = ['nestle', 'multinest', 'polychord'][i % 3]
+        spec = setup(rng)
+        model = tmodel.build(spec)
+        obs0, arr = make_obs(rng, model)
+        obs0 = ArraySpectrum(arr)
+        with np.errstate(all='ignore'):
+            binned = np.array(obs0.create_binner().bin_model(model.model(obs0.wavenumberGrid))[1], float)
+        arr2 = np.array(obs0.rawData, float)
+        arr2[:, 1] = binned
+        obs = ArraySpectrum(arr2)
+        fit = [f for f in choose_fit(rng, spec, None) if i % 2 or f[1][0] != 'loguniform'] or \
+            [('T', ('uniform', [300.0, 2500.0]))]
+        rp = dict(kind=kind, spec=spec, obs=arr2, fit=fit, exact_fit=True)
+        opt, box, restore = capture(kind, obs, model)
+        try:
+            configure(opt, fit)
+            order = [n.replace('log_', '') for n in opt.fit_names]
+            fitd = dict(fit)
+            ndim, ll, pr = get_callbacks(kind, opt, box, restore)
+            x = [math.log10(float(model[n_])) if fitd[n_][0] == 'loguniform' else float(model[n_]) for n_ in order]
+            with np.errstate(all='ignore'):
+                L = ll(x)
+        except Exception as e:
+            import traceback
+            ctx.violation('exact-fit-raises:' + kind, '%s raised %r %s' % (kind, e, traceback.format_exc()[-500:]), replay=rp)
+            continue
+        want = -float(np.sum(np.log(np.array(obs.errorBar, float) * math.sqrt(2 * math.pi))))
+        ctx.case(('exact-fit', kind, i, want), nontrivial=True,
+                 sample=dict(sampler=kind, exact_fit=True, parameters=dict(zip(order, x)), loglike=L))
+        ctx.count('exact-fit:' + kind)
+        if not (math.isfinite(L) and math.isclose(L, want, rel_tol=1e-9, abs_tol=1e-9)):
+            ctx.violation('exact-fit:' + kind, 'observation generated from the model itself: the log-likelihood at the '
+                          'generating values %r is %r, the Gaussian formula gives %r (chi^2 = 0)'
+                          % (dict(zip(order, x)), L, want), replay=rp)
+        else:
+            ctx.validated()
 
 
 def replay(ctx, obj):
